@@ -97,3 +97,47 @@ def shrink_table(tbl, still_fails, maxsteps=200):
             if steps >= maxsteps:
                 break
     return tbl
+
+
+def many_chunk_cases(etl, rng, ctx, prefix, thorough=False):
+    """sorts that spill into hundreds of chunk files: thresholds such as a merge fan-in or a limit on open files are out
+    of reach of 8-row tables.  Reference: the in-memory sort of the same table (and Python's stable sorted with Comparable
+    keys); both directions, first pass and the pass served from the chunk-file cache, petl.config.sort_buffersize as the
+    source of the buffer size."""
+    import petl.config as config
+    from petl.comparison import Comparable
+    keys = [None, 1, 2, 'a', (1, 'x'), 2.5]
+    sizes = [(260, 1), (530, 2)] if not thorough else [(260, 1), (530, 2), (900, 3), (1200, 1)]
+    for n, bs in sizes:
+        rows = [[rng.choice(keys), i] for i in range(n)]
+        T = [['k', 'i']] + rows
+        for rev in (False, True):
+            want = [('k', 'i')] + [tuple(r) for r in sorted(rows, key=lambda r: Comparable(r[0]), reverse=rev)]
+            for how in ('arg', 'config'):
+                saved = config.sort_buffersize
+                try:
+                    if how == 'config':
+                        config.sort_buffersize = bs
+                        v = etl.sort(T, 'k', reverse=rev)
+                    else:
+                        v = etl.sort(T, 'k', reverse=rev, buffersize=bs)
+                    for pno in (1, 2):
+                        try:
+                            got = list(v)
+                        except Exception as e:   # noqa
+                            got = 'ERR ' + type(e).__name__
+                        ctx.case((prefix, 'many-chunks', n, bs, rev, how, pno))
+                        ctx.count('many-chunks')
+                        if got != want:
+                            bad = None
+                            if isinstance(got, list):
+                                bad = next((j for j, (a, b) in enumerate(zip(got, want)) if a != b), min(len(got), len(want)))
+                            ctx.spec_fail('%s|many-chunks|%s' % (prefix, 'reverse' if rev else 'forward'),
+                                          'sort of %d rows in chunks of %d (%s, reverse=%s, pass %d) differs from the in-memory stable sort'
+                                          % (n, bs, 'config.sort_buffersize' if how == 'config' else 'buffersize=', rev, pno),
+                                          {'nrows': n, 'buffersize': bs, 'reverse': rev, 'buffer_from': how, 'pass': pno,
+                                           'first_bad_row': bad, 'got_len': len(got) if isinstance(got, list) else got,
+                                           'table': 'rows [choice(%r), i] for i in range(%d), seed-dependent' % (keys, n)})
+                            break
+                finally:
+                    config.sort_buffersize = saved
